@@ -38,6 +38,8 @@ def run(ctx):
     ctx.do(rule_newest)
     ctx.do(rule_all_versions_kept)
     ctx.do(rule_save_load)
+    from .hidden_state import rule_no_hidden_state
+    ctx.do(rule_no_hidden_state, "C11.history-independence")
 
 
 def _open_mode(call):
